@@ -40,7 +40,8 @@ verus! {
             forall|i: int| 0 <= i < it1.seq().len() ==> *(#[trigger] it1.seq()[i]) == layout.steps@[i],
             forall|i: int| 0 <= i < it1.index() && (#[trigger] layout.steps@[i]).threshold >= 2 ==> step_agrees(layout.steps@[i], link_files@),
 //@before /let reference_link = /
-        assert(key_link_per_step@.dom().contains(*reference_keyid));
+        // guards the map index that follows (no panic)
+        assert(key_link_per_step@.dom().contains(*reference_keyid)); // [C07,C14]
 //@loop 2 iter=it2
             invariant
                 <ArtifactMap as vstd::std_specs::cmp::PartialEqSpec>::obeys_eq_spec(),
